@@ -22,7 +22,20 @@ func isNICForward(in ssa.Instruction, sname string) bool {
 	if !ok || !c.Call.IsInvoke() || c.Call.Method.Name() != "onInboundChunk" {
 		return false
 	}
-	fr, ok := asFieldLoad(c.Call.Value)
+	v := origin(c.Call.Value)
+	for d := 0; d < 4; d++ {
+		// the NIC handed on as a narrower interface
+		switch x := v.(type) {
+		case *ssa.ChangeInterface:
+			v = origin(x.X)
+			continue
+		case *ssa.MakeInterface:
+			v = origin(x.X)
+			continue
+		}
+		break
+	}
+	fr, ok := asFieldLoad(v)
 	return ok && fr.SName == sname
 }
 
@@ -240,11 +253,16 @@ func checkUsesGuarded(o *Obligation, f *ssa.Function, val, okv ssa.Value, nonNil
 		switch x := r.(type) {
 		case *ssa.Store:
 			if cell, ok := x.Addr.(*ssa.Alloc); ok && x.Val == val {
+				// the uses this store reaches (the variable may be assigned again from a second assertion)
+				reached := reach(posAfter(x), func(in ssa.Instruction) bool {
+					st, isSt := in.(*ssa.Store)
+					return isSt && st.Addr == ssa.Value(cell) && st != x
+				})
 				for _, cr := range *cell.Referrers() {
 					if fa, ok := cr.(*ssa.FieldAddr); ok {
 						for _, use := range *fa.Referrers() {
 							ui, _ := use.(ssa.Instruction)
-							if ui == nil {
+							if ui == nil || !reached[ui] {
 								continue
 							}
 							okEdge := okv != nil && hasFact(ui, func(ft fact) bool { return boolFact(ft, func(v ssa.Value) bool { return v == okv }, true) })
@@ -283,6 +301,9 @@ func runC16(c *Ctx) {
 				if cv, ok := v.(*ssa.Convert); ok {
 					v = cv.X
 				}
+				if ct, ok := v.(*ssa.ChangeType); ok {
+					v = ct.X // a named integer type
+				}
 				if prm, ok := v.(*ssa.Parameter); ok {
 					if b, ok := prm.Type().Underlying().(*types.Basic); ok && b.Info()&types.IsInteger != 0 {
 						chanceField = fr.Field
@@ -319,8 +340,13 @@ func runC16(c *Ctx) {
 		return
 	}
 	d := draws[0]
-	if callName(d) != "math/rand.Intn" {
+	switch callName(d) {
+	case "math/rand.Intn", "math/rand.Int31n", "math/rand.Int63n", "math/rand/v2.IntN", "math/rand/v2.Int32N", "math/rand/v2.Int64N":
+	default:
 		o.Fail(d.Pos(), "the draw is %s, not a uniform rand.Intn(100)", callName(d))
+	}
+	if len(d.Call.Args) != 1 {
+		o.Fail(d.Pos(), "the draw is not uniform over [0,100)")
 	} else if k, ok := constInt(d.Call.Args[0]); !ok || k != 100 {
 		o.Fail(d.Pos(), "the draw is not uniform over [0,100)")
 	}
@@ -364,7 +390,11 @@ func runC16(c *Ctx) {
 	instrsOfU(nw, func(in ssa.Instruction) {
 		if s, ok := in.(*ssa.Store); ok && isFieldStore(s, "vnet.LossFilter", chanceField) {
 			o.Site(in.Pos(), "constructor stores %s", s.Val.Name())
-			if _, isP := s.Val.(*ssa.Parameter); isP {
+			sv := s.Val
+			if ct, ok := sv.(*ssa.ChangeType); ok {
+				sv = ct.X
+			}
+			if _, isP := sv.(*ssa.Parameter); isP {
 				okStore = true
 			} else {
 				o.Fail(in.Pos(), "the constructor does not store the configured chance unchanged")
